@@ -11,6 +11,8 @@ index (both implementations: the three-way selection per bound, one index everyw
 uninitialised rewards skipped); tick crossings in a swap use the growth accrued up to it.
 Also decided: rewards are credited on the liquidity held before the change (C07.R5 instances re-decided
 here);
+Also decided: no successful return of the accrual step avoids the timestamp test (the unchanged-growth early returns
+included); the pool's reward write-back is unconditional in both packagings.
 Not decided: accrued amounts versus the exact pro-rata share."""
 from analysis import cfg, atoms as A, preach, writes, accounts as ACC
 from analysis.ir import callee_path, AnchorMissing
